@@ -20,7 +20,7 @@ register element, cyc of every SRAM, SRAM contents after every transfer; plus al
 decode_address(a) for every a, and the model's `reach a` against (decode_address(a), a - find_resource().start).
 
 The ORACLE uses the implementation's rows and the real root.memory_map only."""
-import os, json, time, warnings, contextlib, multiprocessing
+import os, sys, json, time, warnings, contextlib, multiprocessing
 warnings.simplefilter("ignore")
 from ..common import mkrnd, WORK, REPO, case_hash, ensure_dir
 from .. import sim as S
@@ -889,4 +889,20 @@ def describe(case):
     return {"engine": "hier", "kind": case["kind"], "tail": case["tail"], "seed": case["seed"], "hierarchy": _shape(case["cfg"])}
 
 
+def _drop_session_cache():
+    d = os.path.join(WORK, "hier_cache")
+    try:
+        pre = f"{os.getpid()}-"
+        if os.environ.get("HIER_DEBUG"):
+            print("drop cache", pre, len(os.listdir(d)), file=sys.stderr)
+        for f in os.listdir(d):
+            if f.startswith(pre):
+                os.unlink(os.path.join(d, f))
+    except OSError:
+        pass
+
+
 _sweep_cache()
+if multiprocessing.current_process().name == "MainProcess":
+    import atexit
+    atexit.register(_drop_session_cache)
